@@ -5,8 +5,9 @@ the loader makes up a surface `<image>-surface` and a sampler `<image>`, appends
 effect's parameter list, REGISTERS both in the effect's scope and retries the property, so that a
 later property naming the same image finds the sampler already there.
 Object identity is a uid taken from a counter.  Parameter ids are kept apart by construction
-(`PId.samp im` / `PId.surf im`): an image id that itself ends in "-surface" next to an image with
-the stem as its id is outside this model (named in DESIGN.md).
+(`PId.samp im` / `PId.surf im`); the code keeps them apart by extending the made-up surface id
+until it names neither a parameter in scope nor an image (/repo 8c85b3b — before that, images
+`a` and `a-surface` gave two parameters one id; DESIGN.md §4).
 Tied to the source by the C07 correspondence check (`direct` lines of drv/C07.lean).
 -/
 namespace Pyc.DirectTex
